@@ -29,6 +29,14 @@ def response(h, dt, variant):
             if np.ndim(f) != 0:
                 raise TypeError('scalar frequencies only')
             return complex(H(f))
+    elif variant == 'narrow':
+        def fn(f):     # scalar-only, and every value returned in the narrowest Python type that holds it (int at DC, float where real)
+            if np.ndim(f) != 0:
+                raise TypeError('scalar frequencies only')
+            v = complex(H(f))
+            if abs(v.imag) < 1e-15 * max(1.0, abs(v.real)):
+                return int(round(v.real)) if abs(v.real - round(v.real)) < 1e-15 * max(1.0, abs(v.real)) else float(v.real)
+            return v
     else:
         def fn(f):     # defined for non-negative frequencies only; force_real must supply the rest
             f = np.asarray(f, dtype=float)
